@@ -116,13 +116,20 @@ class Structure:
         self.lattice = lattice
 
     def paths(self, pts):
+        """Families of paths, interleaved (round robin) so that every prefix of the list contains every family: pairs, triples, and paths of
+        4 - 6 special points with one jump after the 2nd / 3rd / 4th point or two jumps (a jump late in the path makes the search for the
+        special points start at a non-zero offset)."""
         pts = [p for p in pts if len(p) == 1]
+        fam = [[a + b for a, b in itertools.permutations(pts, 2)],
+               [a + b + c for a, b, c in itertools.permutations(pts[:5], 3)],
+               [a + b + "," + c + a for a, b, c in itertools.permutations(pts[:5], 3)],
+               [a + b + c + "," + d + a for a, b, c, d in itertools.permutations(pts[:5], 4)],
+               [a + b + c + d + "," + b + a for a, b, c, d in itertools.permutations(pts[:4], 4)],
+               [a + b + "," + c + d + "," + a + c for a, b, c, d in itertools.permutations(pts[:4], 4)],
+               [a + b + c + a + d + "," + c + b + d for a, b, c, d in itertools.permutations(pts[:4], 4)]]
         out = []
-        for a, b in itertools.permutations(pts, 2):
-            out.append(a + b)
-        for a, b, c in itertools.permutations(pts[:5], 3):
-            out.append(a + b + c)
-            out.append(a + b + "," + c + a)
+        for row in itertools.zip_longest(*fam):
+            out.extend(p for p in row if p is not None)
         return out
 
     def check(self, lattice, limit=None):
@@ -189,7 +196,7 @@ class Structure:
 
     def __call__(self, ob, tier, seed):
         try:
-            r = self.check(self.lattice, limit=40 if tier == "quick" else None)
+            r = self.check(self.lattice, limit=140 if tier == "quick" else None)
         except Exception as e:  # noqa: BLE001
             return Result(REFUTED, backend="exhaustive-native", witness=dict(lattice=self.lattice), replayed=True, replay_info=dict(raised=f"{type(e).__name__}: {e}"),
                           detail=f"band path / k-axis construction raises for the {self.lattice} lattice: {type(e).__name__}: {e}")
@@ -200,7 +207,7 @@ class Structure:
 
     def replay(self, wit):
         try:
-            r = self.check(wit.get("lattice", self.lattice), limit=40)
+            r = self.check(wit.get("lattice", self.lattice), limit=140)
         except Exception as e:  # noqa: BLE001
             return True, dict(raised=f"{type(e).__name__}: {e}")
         return (not r.get("ok")), r
@@ -248,10 +255,11 @@ class Trs:
 
 def _register():
     for lat in ("sc", "fcc", "bcc", "hexagonal", "tetragonal", "orthorhombic"):
-        register(Obligation(name=f"C15.bandpath.visits_special_points_and_axis[{lat}]", prop=PROP, engine="X", functions=["eminus.kpoints:bandpath", "eminus.kpoints:kpoints2axis"],
-                            run=Structure(lat), budget={"quick": 200, "thorough": 900}, assumes=("cpython",),
-                            doc=f"{lat}: exhaustive over paths of 2-3 special points (with a jump) and Nk = Nspecial..Nspecial+7: points visited in order, equidistant and "
-                                "collinear in between, k-axis = cumulative |dk| with zero length at jumps"))
+        register(Obligation(name=f"C15.bandpath.visits_special_points_and_axis[{lat}]", prop=PROP, engine="B", bounded=True,
+                            functions=["eminus.kpoints:bandpath", "eminus.kpoints:kpoints2axis"],
+                            run=Structure(lat), budget={"quick": 300, "thorough": 1200}, assumes=("cpython",),
+                            doc=f"BOUNDED ({lat}): every path of a stated family (pairs, triples, 4-8 special points with one or two jumps at different positions) x Nk = Nspecial..Nspecial+7: "
+                                "points visited in order, equidistant and collinear in between, k-axis = cumulative |dk| with zero length at jumps (the set of all paths is infinite: not a proof)"))
     register(Obligation(name="C15.trs.weights_and_even_averages", prop=PROP, engine="X", functions=["eminus.kpoints:KPoints.trs"], run=Trs(), budget={"quick": 200, "thorough": 900},
                         assumes=("cpython",), doc="trs(): weight sum 1 and unchanged inversion-even averages, exhaustive over meshes up to 3x3x3 (quick) / 4x4x4 (thorough), both mesh types, shifts"))
 
